@@ -171,4 +171,76 @@ def SSt.flat (st : SSt) : FSt := ⟨st.getsendbuffer, st.wire, st.script⟩
 def sobs (recs : List (SRes × SSt)) : List (SRes × Bytes × Bytes) :=
   recs.map fun p => (p.1, p.2.getsendbuffer, p.2.wire)
 
+/-! ## the caller's read loop over `recv`; `recv_size` / `read_ns` with the size as a Python `int` -/
+
+/-- the caller's read loop over `recv(size)`:
+    `while True: try: d = recv(size) / except Timeout: continue / if not d: break / out += d` -/
+def drain (cfg : Cfg) (size : Nat) : Nat → St → Bytes × St
+  | 0, st => ([], st)
+  | fuel + 1, st =>
+    match recv cfg size st with
+    | (.ok [], st') => ([], st')
+    | (.ok (b :: v), st') => (b :: v ++ (drain cfg size fuel st').1, (drain cfg size fuel st').2)
+    | (_, st') => drain cfg size fuel st'
+
+/-! ### recv_size with the size Python really passes: an `int`, possibly negative -/
+
+/-- Python's `nxt[:-extra]` for `extra > 0`: a negative stop index counts from the end and is clamped at 0 -/
+def pyDropLast (extra : Nat) (nxt : Bytes) : Bytes := nxt.take (nxt.length - extra)
+
+/-- Python's `nxt[-extra:]` for `extra > 0` -/
+def pyLast (extra : Nat) (nxt : Bytes) : Bytes := nxt.drop (nxt.length - extra)
+
+/-- the `while nxt:` loop of `recv_size` with `size : Int`: `total_bytes >= size` is an integer comparison and
+    `extra_bytes = total_bytes - size` may exceed `len(nxt)` -/
+def recvSizeLoopI (recvsize : Nat) (size : Int) : Nat → Bytes → Nat → Bytes → List Ev → Res × St
+  | 0, acc, _, _, script => (.fuel, ⟨acc, script⟩)
+  | fuel + 1, acc, total, nxt, script =>
+    if nxt = [] then (.closed, ⟨acc, script⟩)
+    else
+      let total' := total + nxt.length
+      if (total' : Int) ≥ size then
+        let extra := ((total' : Int) - size).toNat
+        if extra ≠ 0 then (.ok (acc ++ pyDropLast extra nxt), ⟨pyLast extra nxt, script⟩)
+        else (.ok (acc ++ nxt), ⟨[], script⟩)
+      else match sockRecv recvsize script with
+        | .timeout r => (.timeout, ⟨acc ++ nxt, r⟩)
+        | .data d r => recvSizeLoopI recvsize size fuel (acc ++ nxt) total' d r
+
+def recvSizeI (cfg : Cfg) (size : Int) (st : St) : Res × St :=
+  if st.rbuf ≠ [] then
+    recvSizeLoopI cfg.recvsize size (measure st.script + 2) [] 0 st.rbuf st.script
+  else match sockRecv cfg.recvsize st.script with
+    | .timeout r => (.timeout, ⟨[], r⟩)
+    | .data d r => recvSizeLoopI cfg.recvsize size (measure r + 2) [] 0 d r
+
+/-- `read_ns` with the size as the Python `int` that `int(size_prefix)` returns -/
+def readNsI (cfg : Cfg) (maxsize window : Nat) (st : St) : NsRes × St :=
+  match recvUntil cfg [colon] window false st with
+  | (.ok prefix_, st1) =>
+    match parsePyInt prefix_ with
+    | none => (.invalidSize, st1)
+    | some size =>
+      if size > (maxsize : Int) then (.nsTooLong, st1)
+      else match recvSizeI cfg size st1 with
+        | (.ok payload, st2) =>
+          match recv cfg 1 st2 with
+          | (.ok c, st3) => if c = [comma] then (.ok payload, st3) else (.protocolError, st3)
+          | (r, st3) => (NsRes.ofRes r, st3)
+        | (r, st2) => (NsRes.ofRes r, st2)
+  | (r, st1) => (NsRes.ofRes r, st1)
+
+/-- `read_ns(maxsize=arg)` on a configured NetstringSocket, the size kept as the `int` Python computes -/
+def NsSock.readNsI (cfg : Cfg) (ns : NsSock) (arg : Option Nat) (st : St) : NsRes × St :=
+  match arg with
+  | none => C12.readNsI cfg ns.maxsize ns.window st
+  | some m => C12.readNsI cfg m (calcWindow m) st
+
+def NsSock.readNsManyI (cfg : Cfg) (ns : NsSock) (arg : Option Nat) : Nat → St → List NsRes × St
+  | 0, st => ([], st)
+  | k + 1, st =>
+    let (r, st') := ns.readNsI cfg arg st
+    let (rs, st'') := NsSock.readNsManyI cfg ns arg k st'
+    (r :: rs, st'')
+
 end C12
